@@ -210,9 +210,12 @@ impl LookupClass<&StringName, Class> for Context {
             }
 
             let clss = Class::try_from((generic_class, &generics, pos))?;
+            // Fold parents in a fixed order, so that which parent wins when two define the same
+            // member does not depend on HashSet iteration order.
             let clss = clss
                 .parents
                 .iter()
+                .sorted()
                 .map(|p| self.class(p, pos))
                 .collect::<TypeResult<Vec<Class>>>()?
                 .iter()
